@@ -87,6 +87,50 @@ def specCall (s : Sig) (c : CallExpr) : Option Binding :=
   | none => none
   | some (args, kws) => specBind s args kws
 
+
+/-! ## Round 3: the local namespace of the callee at entry
+
+What Python defines for `locals()` on entry of the callee, written without any reference to
+`co_varnames`, slots or cells: every parameter is bound to the argument the binding rules assign,
+`*name` / `**name` to the surplus, every free variable to what the enclosing scope holds, and EVERY
+OTHER local variable of the function is unbound – whatever the call's keywords are called.  A
+keyword can only ever name a parameter (`s.names`); a keyword spelled like any other local variable,
+like `*name`/`**name`, like a global or a free variable is an ordinary surplus keyword. -/
+
+/-- the function as Python sees it: signature, the other local variables of its body (cell or not),
+its free variables with the content of the enclosing scope's cells, generator or not -/
+structure Callee where
+  sig : Sig
+  others : List Name
+  free : List (Name × Option Obj)
+  generator : Bool
+  deriving Repr
+
+/-- name ↦ bound object / unbound, for every local and free variable -/
+abbrev Namespace := List (Name × Option Obj)
+
+def specEntry (c : Callee) (args : List Val) (kws : Dict) : Option Namespace :=
+  match specBind c.sig args kws with
+  | none => none
+  | some b =>
+    some ((c.sig.names.zip b.params).map (fun (n, v) => (n, some (Obj.val v)))
+      ++ (match c.sig.star, b.star with | some n, some l => [(n, some (Obj.tuple l))] | _, _ => [])
+      ++ (match c.sig.dstar, b.dstar with | some n, some d => [(n, some (Obj.dict d))] | _, _ => [])
+      ++ c.others.map (fun n => (n, none))
+      ++ c.free)
+
+/-- the whole call: a bound method passes its receiver as first positional argument; a call from Go
+(`py.Call`) has the effective arguments already -/
+def specEnter (c : Callee) (r : Reach) (e : CallExpr) : Option Namespace :=
+  match r with
+  | .pyCall => specEntry c e.args e.kws
+  | .direct => match specCallArgs e with
+    | none => none
+    | some (a, k) => specEntry c a k
+  | .bound self => match specCallArgs e with
+    | none => none
+    | some (a, k) => specEntry c (self :: a) k
+
 /-! ## Go callables -/
 
 /-- What a Go callable of signature `g`, reached by route `r`, must receive for the Python call with
